@@ -127,6 +127,36 @@ def corr_parseHT(ctx, items, name='corr_parseHT'):
     return [(items[i], cases[i][1], o) for i, o in bad]
 
 
+def modelled_B(p):
+    """Two plain durations [mark, space] as symbol table ("bit" stream encoding), no middle timings: PyIR.Engine.ParseB.parseB."""
+    return p['eclass'] == 'B' and not p['middle'] and len(p['bursts']) == 2 and all(isinstance(b, int) and b != 0 for b in p['bursts'])
+
+
+def real_parseB(p, code, tol):
+    from pyIRDecoder import code_wrapper
+    try:
+        cw = code_wrapper.CodeWrapper(p['encoding'], p['lead_in'][:], p['lead_out'][:], [], list(p['bursts']), tol, list(code))
+    except Exception as e:  # noqa
+        return [err_code(e)]
+    bits = cw.bits
+    return [0, len(bits)] + [int(b) for b in bits] + list(cw)
+
+
+def corr_parseB(ctx, items, name='corr_parseB'):
+    """items: list of (p, code, tol, tag) for protocols with modelled_B.  Returns disagreements or None."""
+    cases = []
+    for p, code, tol, tag in items:
+        cases.append(('(%s, %s, %s, (%s, %s), %s)' % (vlib.z(tol), vlib.zlist(p['lead_in']), vlib.zlist(p['lead_out']),
+                                                       vlib.z(p['bursts'][0]), vlib.z(p['bursts'][1]), vlib.zlist(code)),
+                      real_parseB(p, code, tol)))
+    _outcomes(ctx, name, cases)
+    bad = vlib.run_model_cases(ctx, name, 'Require Import PyIR.Base.Result PyIR.Engine.ParseB.', 'run_parseB',
+                               '(Z * list Z * list Z * (Z * Z) * list Z)', cases, shard=300)
+    if bad is None:
+        return None
+    return [(items[i], cases[i][1], o) for i, o in bad]
+
+
 PARSE_IMPORTS = 'Require Import PyIR.Base.Result PyIR.Engine.EngineRun.'
 PARSE_TYPE = '(Z * list Z * list Z * list (Z * Z) * list Z)'
 
